@@ -1116,3 +1116,8 @@ M('C10', 'rf-abi17-high-half-partially-checked', ABI, "    if high_half.iter().a
 M('C10', 'rf-abi17-negative-guard-dropped', ABI, "        amount if amount < 0 => Err(ContractError::InvalidAmount),\n", "", 'C10', base='abi-17')
 M('C10', 'rf-abi17-low-half-is-high-half', ABI, "    low_bytes.copy_from_slice(low_half);", "    low_bytes.copy_from_slice(high_half);", 'C10', base='abi-17')
 M('C03', 'ft-rotate_at_epoch-bypasses-entry', GW, "        Self::rotate_signers(env.clone(), signers, proof, bypass_rotation_delay)?;\n\n        Ok(auth::epoch(&env))", "        let _ = (&proof, bypass_rotation_delay);\n        auth::rotate_signers(&env, &signers, false)?;\n\n        Ok(auth::epoch(&env))", 'C03', base='features/gwrotate-f5')
+
+# ---------------- rules added after the "seed disguised as a refactoring" round ----------------
+M('C09', 'bypass-still-enforces-delay', GW, "        auth::rotate_signers(&env, &signers, !bypass_rotation_delay)?;", "        auth::rotate_signers(&env, &signers, true)?;", 'C09.R3')
+M('C04', 'ttl-extension-of-untrusted-key', ITS, "        extend_persistent_ttl(env, &DataKey::TrustedChain(source_chain));\n        extend_instance_ttl(env);", "        extend_persistent_ttl(env, &DataKey::TrustedChain(message_id));\n        extend_instance_ttl(env);", 'C04.R5')
+M('C05', 'ttl-extension-of-untrusted-key-c05', ITS, "        extend_persistent_ttl(env, &DataKey::TrustedChain(source_chain));\n        extend_instance_ttl(env);", "        extend_persistent_ttl(env, &DataKey::TrustedChain(message_id));\n        extend_instance_ttl(env);", 'C05.R6')
